@@ -29,8 +29,8 @@ Cat(s) == IF s = <<>> THEN "" ELSE Head(s) \o Cat(Tail(s))
 BadSide == <<"", "x", "W", "wb", "-">>
 BadCastle == <<"KQkqK", "X", "kqKQ", "--", "KQkq-", "">>
 BadEp == <<"e9", "i3", "e", "e33", "a1", "h8", "e4", "a6", "h3", "33">>
-BadClock == <<"-1", "x", "99999999999999999999", "1.5", "">>
-BadMove == <<"0", "-5", "x", "99999999999999999999">>
+BadClock == <<"-1", "x", "99999999999999999999", "1.5", "", "9223372036854775807", "4611686018427387904", "2147483648", "00012">>
+BadMove == <<"0", "-5", "x", "99999999999999999999", "4611686018427387904", "9223372036854775807", "4611686018427387903", "2147483648", "007">>
 Bases == << <<"rnbqkbnr/pppppppp/8/8/8/8/PPPPPPPP/RNBQKBNR", "w", "KQkq", "-", "0", "1">>,
             <<"rnbqkbnr/1ppppppp/8/pP6/8/8/P1PPPPPP/RNBQKBNR", "w", "KQkq", "a6", "0", "3">>,
             <<"8/8/8/8/8/8/8/k6K", "b", "-", "-", "12", "40">> >>
@@ -48,7 +48,7 @@ NextRank ==   \* grow a token sequence (all sequences up to MaxTok are reached),
     /\ fam' = "rank" /\ idx' = 0
 NextField ==
     /\ fam = "hub"
-    /\ \E b \in 1..Len(Bases), f \in 1..5, v \in 1..6 :
+    /\ \E b \in 1..Len(Bases), f \in 1..5, v \in 1..10 :
           /\ v <= Len(Bad[f])
           /\ toks' = [Bases[b] EXCEPT ![f + 1] = Bad[f][v]]
     /\ fam' = "field" /\ idx' = 0
